@@ -279,6 +279,22 @@ func run(c *mon.Ctx) {
 				}
 			}
 		}
+		// setters called after an encoding, and no further encoding: whatever Data() and the slice handed out
+		// hold now, it is a section with a zero checksum (it may be the old one or a re-timed one)
+		if r.Chance(3) {
+			s.SetAdjustPTS(gots.PTS(r.U33()))
+			if r.Bool() {
+				s.SetTier(uint16(r.Intn(4096)))
+			}
+			c.Count("emitted_scte35.setters_after_encoding")
+			for name, b := range map[string][]byte{"Data()": s.Data(), "the slice UpdateData() returned": lastSec} {
+				if len(b) < 4 || ref.CRC32MPEG2(b) != 0 {
+					c.Fail("crc:emitted-scte35-after-later-setters", "after SetAdjustPTS / SetTier on an already encoded message, "+name+" holds a section whose CRC-32/MPEG-2 is not zero", wit{Input: mon.Hex(b)})
+					break
+				}
+			}
+			first = append([]byte{}, s.Data()...)
+		}
 		if edits != "" {
 			sec2 := s.UpdateData()
 			lastSec = sec2
@@ -381,6 +397,11 @@ func run(c *mon.Ctx) {
 		}
 		out, err := psi.FilterPMTPacketsToPids([]*packet.Packet{&pk}, keep)
 		c.Eval(1)
+		if badIn && err != nil && len(out) == 0 {
+			// an input section whose own CRC_32 is wrong is not well-formed: refusing it emits nothing
+			c.Count("emitted_pmt.input_with_wrong_crc_refused")
+			return
+		}
 		if err != nil || len(out) != 1 {
 			c.Fail("crc:emitted-pmt-setup", fmt.Sprintf("filtering a one-packet PMT to present PIDs failed: %v (%d packets)", err, len(out)), wit{Input: mon.Hex(pk[:])})
 			return
